@@ -1052,7 +1052,7 @@ def gen_base(rng, numbers, hist, max_steps=120):
     range); delta != 0 marks a range that is N steps long only up to |delta| < 1e-6*dt"""
     if numbers == "Q":
         dt = dyadic(rng, 1, 24, 6)
-        t0 = rng.choice([0.0, 0.0, dyadic(rng, 0, 64, 4), -dyadic(rng, 0, 16, 3)])
+        t0 = rng.choice([0.0, 0.0, dyadic(rng, 0, 64, 4), -dyadic(rng, 0, 16, 3)]) + 0.0  # (-0.0 + 0.0 = +0.0)
     else:
         dt = rng.choice(DECIMAL_DT)
         t0 = rng.choice(DECIMAL_T0)
